@@ -70,11 +70,31 @@ def expected_size(kind):
     return None, 'self.byte_count('
 
 
+def strategy_entry(repo, ci, fi, literal):
+    """the strategy of ``ci`` whose unpack is ``fi`` and that _compile installs under ``literal``"""
+    cands = [s_ for s_ in repo.strategies(ci) if s_['unpack'] is fi]
+    if len(cands) <= 1:
+        return cands[0] if cands else None
+    hits = [s_ for s_ in cands if any(literal(g) for gs in s_['guard_sets'] for g in gs)]
+    return hits[0] if len(hits) == 1 else None
+
+
+KIND_LITERAL = {
+    'int': lambda g: g == 'isinstance(self.byte_count, int)',
+    'field': lambda g: g == 'isinstance(self.byte_count, Field)',
+    'callable': lambda g: g == 'callable(self.byte_count)' or g.startswith('isinstance(self.byte_count, (UnaryExpr'),
+}
+
+
 def classify_sized(ctx, ci, fi, kind):
     """(b) for one sized strategy; ``kind`` in int / field / callable"""
     repo = ctx.repo
     rule = 'C06-sized-read'
     w = repo.walker(inline_depth=ctx.depth, max_paths=ctx.max_paths)
+    entry = strategy_entry(repo, ci, fi, KIND_LITERAL[kind])
+    if entry is not None:
+        # helpers chosen by _compile for this kind (e.g. a size resolver) are followed
+        w.const_heap = repo.strategy_consts(entry, keep=('byte_count', 'until_marker', 'field_name', 'include_delimiter', 'consume_delimiter', 'default'))
     paths = w.paths(fi.node, cls=ci)
     ctx.unit('paths', len(paths))
     good = 0
@@ -136,7 +156,7 @@ def search_call(e):
 
 def classify_marker(ctx, ci, fi, regex):
     repo = ctx.repo
-    w = repo.walker(inline_depth=ctx.depth, max_paths=ctx.max_paths)
+    w = repo.walker(inline_depth=ctx.depth, max_paths=ctx.max_paths, split_ifexp=True)
     paths = w.paths(fi.node, cls=ci)
     ctx.unit('paths', len(paths))
     rule_c, rule_d = 'C06-marker-search', 'C06-include-consume'
@@ -368,24 +388,37 @@ def check_pack_and_ctor(ctx):
             ctx.holds(rule, pk, st, 'value followed by the excluded delimiter', apps[0].lineno, clause='e')
         else:
             ctx.violation(rule, pk, st, 'pack must emit the value followed by delimiter_to_be_included (in that order)', apps[0].lineno, clause='e')
-    # constructor
-    found = False
-    for n in ast.walk(init.node):
-        if isinstance(n, ast.Assign) and isinstance(n.targets[0], ast.Attribute) and n.targets[0].attr == 'delimiter_to_be_included':
-            found = True
-            v = n.value
-            st = stmt_text(n)
-            ok = isinstance(v, ast.IfExp) and canon(v.body) in ('self.until_marker', 'until_marker') and isinstance(v.orelse, ast.Constant) and v.orelse.value == b''
-            if ok:
-                lits = sorted(canon(c) for c in conj(v.test))
-                ok = lits in (['isinstance(self.until_marker, bytes)', 'not include_delimiter'], ['isinstance(until_marker, bytes)', 'not include_delimiter'],
-                              ['isinstance(self.until_marker, bytes)', 'not self.include_delimiter'])
-            if ok:
-                ctx.holds(rule, init, st, 'marker iff it is bytes and excluded, else empty', n.lineno, clause='e')
+    # constructor: on every path, the delimiter pack re-emits is the marker iff the marker is a
+    # bytes string that is left out of the value; otherwise it is empty
+    names = [x.arg for x in init.node.args.args]
+    seen_marker = seen_empty = False
+    wi = repo.walker(max_paths=ctx.max_paths, split_ifexp=True)
+    for p in wi.paths(init.node, cls=ci):
+        if p.raises():
+            continue
+        st_ = [e for e in p.effects if e.kind == 'store_attr' and canon(e.obj) == 'self' and e.name == 'delimiter_to_be_included']
+        gt = gtexts(p)
+        label = 'Data.__init__ path [%s]' % '; '.join(sorted(g for g in gt if 'until_marker' in g or 'include_delimiter' in g))[:160]
+        if not st_:
+            ctx.violation(rule, init, label, 'delimiter_to_be_included is never initialised', init.node.lineno, clause='e')
+            continue
+        v = canon(st_[-1].value)
+        is_bytes = any(g in gt for g in ('isinstance(until_marker, bytes)', 'isinstance(self.until_marker, bytes)'))
+        excluded = any(g in gt for g in ('not include_delimiter', 'not self.include_delimiter'))
+        if is_bytes and excluded:
+            if v in ('until_marker', 'self.until_marker'):
+                seen_marker = True
+                ctx.holds(rule, init, label + ' -> the marker', 'a bytes marker left out of the value is emitted again by pack', st_[-1].lineno, clause='e')
             else:
-                ctx.violation(rule, init, st, 'the delimiter re-emitted by pack must be the marker iff it is a bytes marker that is excluded from the value', n.lineno, clause='e')
-    if not found:
-        ctx.violation(rule, init, 'Data.__init__', 'delimiter_to_be_included is never initialised', init.node.lineno, clause='e')
+                ctx.violation(rule, init, label + ' -> %s' % v, 'the delimiter re-emitted by pack must be the marker iff it is a bytes marker that is excluded from the value', st_[-1].lineno, clause='e')
+        else:
+            if v == "b''":
+                seen_empty = True
+                ctx.holds(rule, init, label + " -> b''", 'nothing to re-emit (included in the value, a pattern, or no marker)', st_[-1].lineno, clause='e')
+            else:
+                ctx.violation(rule, init, label + ' -> %s' % v, 'the delimiter re-emitted by pack must be the marker iff it is a bytes marker that is excluded from the value', st_[-1].lineno, clause='e')
+    if not (seen_marker and seen_empty):
+        ctx.violation(rule, init, 'Data.__init__', 'expected a path that keeps the marker for pack and a path that keeps nothing (marker kept: %s, empty: %s)' % (seen_marker, seen_empty), init.node.lineno, clause='e')
     # constructor contract: consume_delimiter False with include True rejected; flags stored unchanged
     for attr, param in (('include_delimiter', 'include_delimiter'), ('consume_delimiter', 'consume_delimiter'), ('byte_count', 'byte_count'), ('until_marker', 'until_marker')):
         ok = False
